@@ -479,6 +479,11 @@ def check_ref(case, ctx):
                 if not persistent:
                     ctx.info("skipped:requery-of-pending-object")
                     continue
+                if m.committed == ABSENT:
+                    # a flushed object whose reference never had a value is in a state of its own (neither loaded nor expired); what the
+                    # row's arrival makes of it is not documented: kept out of the domain
+                    ctx.info("skipped:requery-of-never-set-reference")
+                    continue
                 from sqlalchemy import select
 
                 got = sess.scalars(select(C)).all()
@@ -487,6 +492,7 @@ def check_ref(case, ctx):
                 if m.cur != UNTOUCHED:
                     nontrivial = True
                     classes.add("requery-over-pending-change")
+
             else:
                 raise HarnessError(op)
             classes.add(op)
